@@ -4,6 +4,7 @@ CONSTANTS MaxBlock = 2 MaxOps = 5 MaxLen = 0
   Takes = {0}
   Srcs = {"iter"}
   SplitBufs <- SplitBufsQuick
+  Rets = {"gen"}
   Variant = "legacy"
 INVARIANT RunIsBlocks
 INVARIANT RunPrefix
@@ -13,6 +14,7 @@ INVARIANT ResultCount
 INVARIANT Terminates
 INVARIANT Accounted
 INVARIANT ConcatEqRun
+INVARIANT RetIndependent
 INVARIANT YorFlushes
 INVARIANT AfterRequest
 INVARIANT OneBlock
